@@ -205,23 +205,25 @@ int main(int argc, char** argv) {
   std::vector<std::string> regular; // families whose types may appear inside records / nested buffers
   for (auto& kv : R.fam)
     regular.push_back(kv.first);
-  const long onlyFam = H.paramInt("family", -1);
+  const long onlyFam       = H.paramInt("family", -1);
+  const long specialPeriod = std::max(2L, H.paramInt("special_period", 32));
   size_t ntypes      = 0;
   for (auto& kv : R.fam)
     ntypes += kv.second.size();
 
+  H.note("registry", J().kv("concrete_types", ntypes).kv("families", R.fam.size()).str());
+
   for (long k = H.firstCase(); k < H.endCase(); ++k) {
     Rng rng(H.caseSeed(k));
-    // 3 of 4 cases go through the regular families in turn, the 4th is a special-input component or a concatenation
+    // the regular families in turn; every specialPeriod-th case is one of the special-input components (three of
+    // them end in a sanitizer abort on the unchanged tree, i.e. a process restart: keep them few)
     unsigned fam;
     if (onlyFam >= 0)
       fam = (unsigned)onlyFam % NFAM;
-    else if (k % 4 != 3)
-      fam = (unsigned)((k - k / 4) % NREGULAR);
-    else {
-      unsigned j = (unsigned)((k / 4) % 8);
-      fam        = j < 5 ? NREGULAR + j : 15;
-    }
+    else if (k % specialPeriod == specialPeriod - 1)
+      fam = NREGULAR + (unsigned)((k / specialPeriod) % (NFAM - NREGULAR));
+    else
+      fam = (unsigned)((k - k / specialPeriod) % NREGULAR);
     const std::string family = FAMILIES[fam];
     unsigned budget = (unsigned)rng.pick({6, 40, 40, 300, 300, H.thorough ? 6000 : 2000});
     Ctx ctx{rng, budget};
@@ -396,8 +398,7 @@ int main(int argc, char** argv) {
     H.end(k, sig, nontrivial,
           J().kv("roundtrips", roundtrips).kv("fields", fields.size()).kv("record_bytes", L).kv("offset_sweeps", 1)
               .kv("alignments_covered", aligns).kv("reused_target_reads", dirtyTargets).kv("gsized_equal", gsEq)
-              .kv("gsized_differs", gsDiff).kv("gsized_not_available", gsNa).kv("types_registered", (uint64_t)(k == H.firstCase() ? ntypes : 0))
-              .str());
+              .kv("gsized_differs", gsDiff).kv("gsized_not_available", gsNa).str());
   }
   return 0;
 }
